@@ -116,6 +116,7 @@ type sess struct {
 	lastAct map[string]uint64 // height of the account's last successful stake / unstake / vote
 	sysXfer bool              // a plain transfer to aergo.system was executed in this session
 	not39   bool              // a voteBP with a candidate length != 39 was executed
+	forceAcc []byte           // scripted sessions: the account field of the next system transactions (a name bound to the sender)
 	taint   string            // node sessions: class of the defect this history has run into (its consequences are counted, not failed)
 	how     string            // replay: how the op lines are executed
 }
@@ -258,6 +259,7 @@ type view struct {
 	namesI  map[string][2][]byte
 	sysBal  *big.Int
 	nameBal *big.Int
+	rankers []string // system.GetRankers: what the DPoS producer election reads (hex candidates)
 }
 
 func (s *sess) issueKey(id string) []byte {
@@ -330,6 +332,14 @@ func (s *sess) look() *view {
 				panic(err)
 			}
 			v.vtotal[is] = new(big.Int).SetBytes(d)
+		}
+	}
+	if rk, err := system.GetRankers(scs); err != nil {
+		panic(err)
+	} else {
+		for _, c := range rk {
+			b, _ := base58.Decode(c)
+			v.rankers = append(v.rankers, hx(b))
 		}
 	}
 	v.mem = system.VerifC15VprMemory()
@@ -440,8 +450,8 @@ func (s *sess) show(v *view) string {
 		}
 	}
 	sort.Strings(bl)
-	return fmt.Sprintf("T=%s st=[%s] v=[%s] %s vt=[%s] p=[%s] np=[%s] vm=%s vd=%s nm=[%s] ni=[%s] b=[%s]",
-		v.total, joinC(st), joinC(vs), strings.Join(rk, " "), joinC(vt), joinC(p), joinC(np),
+	return fmt.Sprintf("T=%s st=[%s] v=[%s] %s rk=[%s] vt=[%s] p=[%s] np=[%s] vm=%s vd=%s nm=[%s] ni=[%s] b=[%s]",
+		v.total, joinC(st), joinC(vs), strings.Join(rk, " "), joinC(v.rankers), joinC(vt), joinC(p), joinC(np),
 		showVpr(v.mem, true), showVpr(v.load, false), showNames(v.namesB), showNames(v.namesI), joinC(bl))
 }
 
@@ -547,8 +557,28 @@ func (s *sess) execTx(txAcc, sender, rcpt []byte, amount *big.Int, typ types.TxT
 	return res
 }
 
+// sysTx: a governance transaction of a to aergo.system. One time in three, when a name is bound (in the committed state)
+// to a's address, the transaction names that *name* as its account: executeTx resolves it to the same sender, so the
+// staking / vote records must be the ones of a's address (the model op line carries the address).
 func (s *sess) sysTx(a *acct, amount *big.Int, payload string) string {
-	return s.execTx(a.addr, a.addr, sysAddr, amount, types.TxType_GOVERNANCE, payload)
+	txAcc := a.addr
+	if s.forceAcc != nil {
+		txAcc = s.forceAcc
+		s.run.Count("systx:name-account-sender")
+	} else if s.view != nil {
+		var cand []string
+		for n, r := range s.view.namesI {
+			if bytes.Equal(r[1], a.addr) && n != types.AergoName {
+				cand = append(cand, n)
+			}
+		}
+		sort.Strings(cand)
+		if len(cand) > 0 && s.rng.Chance(1, 3) {
+			txAcc = []byte(cand[s.rng.Intn(len(cand))])
+			s.run.Count("systx:name-account-sender")
+		}
+	}
+	return s.execTx(txAcc, a.addr, sysAddr, amount, types.TxType_GOVERNANCE, payload)
 }
 
 // ---------------------------------------------------------------- operations (with the property's clauses as oracle)
@@ -1225,14 +1255,20 @@ func (s *sess) pickH(rng *vh.Rng) uint64 {
 	return t
 }
 
-func (s *sess) randomSession(steps int, tiePool bool) {
+// large: six to eight accounts in ONE voting-power bucket, a pool of more than thirty candidates, votes naming up to the
+// admitted maximum of 30 (serialised vote records and list elements longer than 255 bytes).
+func (s *sess) randomSession(steps int, tiePool bool, large bool) {
 	rng := s.rng
 	na := 2 + rng.Intn(4)
 	sameBucket := rng.Bool()
+	if large {
+		na = 6 + rng.Intn(3)
+		sameBucket = true
+	}
 	b := uint8(rng.Intn(71))
 	for i := 0; i < na; i++ {
 		var a []byte
-		if sameBucket && i < 3 {
+		if sameBucket && (i < 3 || large) {
 			a = s.mkAddrBucket(rng, b)
 		} else {
 			a = s.mkAddr(rng)
@@ -1245,6 +1281,9 @@ func (s *sess) randomSession(steps int, tiePool bool) {
 	}
 	// candidates: a few distinct ones; optionally pairs equal from byte 7 on (the tie shape)
 	nc := 2 + rng.Intn(4)
+	if large {
+		nc = 31 + rng.Intn(3)
+	}
 	for i := 0; i < nc; i++ {
 		x := rng.Bytes(32)
 		s.cands = append(s.cands, peerID(2+byte(rng.Intn(2)), x))
@@ -1335,6 +1374,9 @@ func (s *sess) randomSession(steps int, tiePool bool) {
 			s.unstake(a, x)
 		case k < 58:
 			n := rng.Intn(4)
+			if large {
+				n = rng.Intn(31)
+			}
 			if rng.Chance(1, 12) {
 				n = 0
 			}
@@ -1342,7 +1384,7 @@ func (s *sess) randomSession(steps int, tiePool bool) {
 			used := map[int]bool{}
 			for j := 0; j < n; j++ {
 				c := rng.Intn(len(s.cands))
-				if used[c] && !rng.Chance(1, 10) {
+				if used[c] && (large || !rng.Chance(1, 10)) {
 					continue
 				}
 				used[c] = true
@@ -1564,6 +1606,37 @@ func scripted(run *vh.Run, fd *findings) {
 		s.setOwner(b, a)              // already set
 		s.nameCreate(a, n2, coins(1)) // the payment goes to the contract owner now
 		s.endBlock(6)
+		s.close()
+	}
+	// S5: system transactions whose account field is a *name* bound to the sender: the records are those of the address
+	{
+		s := newSess(run, fd, run.Rng.Fork(), 2, "scripted:name-account-sender")
+		a := s.addAcct(fixedAddr(18), coins(100000))
+		b := s.addAcct(fixedAddr(19), coins(100000))
+		n1 := "sendername12"
+		c1, c2 := peerID(2, fill(0x12)), peerID(3, fill(0x13))
+		s.h = 4
+		s.nameCreate(a, n1, coins(1))
+		s.stake(b, coins(10000))
+		s.endBlock(5)
+		s.forceAcc = []byte(n1)
+		s.stake(a, coins(30000))
+		s.voteBP(a, [][]byte{c1, c2})
+		s.voteDAO(a, "BPCOUNT", []string{"4"})
+		s.stake(a, coins(1)) // within the delay
+		s.forceAcc = nil
+		s.voteBP(a, [][]byte{c1}) // the same account by its address: a re-vote within the delay
+		s.endBlock(5 + D)
+		s.forceAcc = []byte(n1)
+		s.unstake(a, coins(10000))
+		s.forceAcc = nil
+		s.nameUpdate(a.addr, a, n1, types.EncodeAddress(b.addr), b.addr, coins(1)) // the name now resolves to b
+		s.endBlock(5 + 2*D)
+		s.forceAcc = []byte(n1)
+		s.voteBP(b, [][]byte{c2}) // signed by b under the name: b's records
+		s.forceAcc = nil
+		s.unstake(a, coins(20000))
+		s.endBlock(6 + 2*D)
 		s.close()
 	}
 	// S4: before hard fork 2: no voting-power rank, no parameter votes
@@ -1941,7 +2014,15 @@ func main() {
 			fv = 3
 		}
 		s := newSess(run, fd, run.Rng.Fork(), fv, fmt.Sprintf("random:%d", i))
-		s.randomSession(20+run.Rng.Intn(run.Pick(40, 80)), i%3 == 0)
+		large := i%20 == 19
+		steps := 20 + run.Rng.Intn(run.Pick(40, 80))
+		if large {
+			run.Count("sessions:large")
+			if steps > 40 {
+				steps = 40
+			}
+		}
+		s.randomSession(steps, i%3 == 0, large)
 		s.close()
 		run.Count("sessions")
 	}
